@@ -86,11 +86,21 @@ func (x *exec) chanClose(st *pstate, args []Val, in ssa.Instruction) {
 const opaqueMaps = "map contents are not modelled: every lookup and iteration step returns arbitrary values (sound for safety obligations only)"
 
 func (x *exec) makeMap(st *pstate, in *ssa.MakeMap) Val {
+	if x.exactMap(in) {
+		return x.newLocalMap(st, in)
+	}
 	x.p.Assumptions[opaqueMaps] = true
 	return x.env.Alloc(st.State)
 }
 
 func (x *exec) mapUpdate(st *pstate, in *ssa.MapUpdate) {
+	if m, ok := x.val(st, in.Map).(*localMap); ok {
+		ms := x.mapStateOf(st, m)
+		k := x.toTerm(x.val(st, in.Key))
+		v := x.toTerm(x.val(st, in.Value))
+		st.maps[m.id] = &mapState{present: smt.Store(ms.present, k, smt.True), vals: smt.Store(ms.vals, k, v)}
+		return
+	}
 	x.p.Assumptions[opaqueMaps] = true
 	m := x.term(st, in.Map)
 	if !(m.IsLit() && m.Val.Sign() > 0) {
@@ -99,6 +109,17 @@ func (x *exec) mapUpdate(st *pstate, in *ssa.MapUpdate) {
 }
 
 func (x *exec) mapLookup(st *pstate, in *ssa.Lookup) Val {
+	if m, ok := x.val(st, in.X).(*localMap); ok {
+		ms := x.mapStateOf(st, m)
+		k := x.toTerm(x.val(st, in.Index))
+		present := smt.Select(ms.present, k)
+		et := m.t.Elem()
+		v := smt.Ite(present, smt.Select(ms.vals, k), x.p.T.Zero(et))
+		if in.CommaOk {
+			return Tuple{x.wrap(v, et), present}
+		}
+		return x.wrap(v, et)
+	}
 	x.p.Assumptions[opaqueMaps] = true
 	et := in.X.Type().Underlying().(*types.Map).Elem()
 	v := x.env.FreshVal("mapget", x.p.T.SortOf(et))
@@ -118,11 +139,19 @@ func (x *exec) mapLenVal(st *pstate, m Val, t *types.Map) Val {
 }
 
 func (x *exec) mapDelete(st *pstate, args []Val, argTypes []types.Type, in ssa.Instruction) {
+	if m, ok := args[0].(*localMap); ok {
+		ms := x.mapStateOf(st, m)
+		st.maps[m.id] = &mapState{present: smt.Store(ms.present, x.toTerm(args[1]), smt.False), vals: ms.vals}
+		return
+	}
 	x.p.Assumptions[opaqueMaps] = true
 }
 
 func (x *exec) rangeInit(st *pstate, in *ssa.Range) Val {
 	if _, ok := in.X.Type().Underlying().(*types.Map); ok {
+		if m, isLocal := x.val(st, in.X).(*localMap); isLocal {
+			return m
+		}
 		x.p.Assumptions[opaqueMaps] = true
 		return x.term(st, in.X)
 	}
@@ -135,6 +164,25 @@ func (x *exec) rangeNext(st *pstate, in *ssa.Next) Val {
 		unsupp("range over string")
 	}
 	tup := in.Type().(*types.Tuple)
+	if m, isLocal := x.val(st, in.Iter).(*localMap); isLocal {
+		// some entry of the map (or none: ok is arbitrary - the order and number of iterations are not modelled)
+		ms := x.mapStateOf(st, m)
+		ok := x.env.Fresh("rangeok", smt.Bool)
+		k := x.env.FreshVal("rangekey", x.p.T.SortOf(m.t.Key()))
+		st.assume(smt.Implies(ok, smt.Select(ms.present, k)), "range yields an entry of the map")
+		out := Tuple{ok}
+		if b, isBasic := tup.At(1).Type().(*types.Basic); isBasic && b.Kind() == types.Invalid {
+			out = append(out, smt.False)
+		} else {
+			out = append(out, x.wrap(k, m.t.Key()))
+		}
+		if b, isBasic := tup.At(2).Type().(*types.Basic); isBasic && b.Kind() == types.Invalid {
+			out = append(out, smt.False)
+		} else {
+			out = append(out, x.wrap(smt.Select(ms.vals, k), m.t.Elem()))
+		}
+		return out
+	}
 	out := Tuple{x.env.Fresh("rangeok", smt.Bool)}
 	for i := 1; i < tup.Len(); i++ {
 		t := tup.At(i).Type()
